@@ -77,6 +77,8 @@ def dat_families():
 
 def tools_apply(fam, cls, ver):
     """Is the image side's RoT hash defined for this family and key type (the C03 value the credential must agree with)?"""
+    if cls == "ele2":
+        return fam["rot_type"] == "srk_table_ahab_v2"
     if cls == "ele1":
         return fam["rot_type"] == "srk_table_ahab"
     if ver[0] == 1:
@@ -144,6 +146,16 @@ class Host:
         self.dar_obj = dar
         return dar.export()
 
+    def make_dac(self, data, hl):
+        """Challenge object through the public constructor (used only after DebugAuthenticationChallenge.parse was rejected)."""
+        from spsdk.dat.dac_packet import DebugAuthenticationChallenge
+        from spsdk.dat.debug_credential import ProtocolVersion
+
+        rev, = struct.unpack_from("<L", data, 24)
+        pinned, default, vu = struct.unpack_from("<3L", data, 28 + hl)
+        return DebugAuthenticationChallenge(version=ProtocolVersion(f"{self.ver[0]}.{self.ver[1]}"), socc=self.fam["socc"], uuid=data[8:24], rotid_rkh_revocation=rev,
+                                            rotid_rkth_hash=data[28:28 + hl], cc_soc_pinned=pinned, cc_soc_default=default, cc_vu=vu, challenge=data[40 + hl:72 + hl])
+
     def tools_hash(self, rot_names):
         from spsdk.utils.crypto.rot import Rot
 
@@ -191,15 +203,141 @@ def run_scenario(sc):
         return {"id": sc["id"], "ev": [], "harness_error": f"{exc_name(e)}: {e}\n{traceback.format_exc()[-1500:]}", "sc": sc}
 
 
+def _run_scenario_ele2(sc):
+    """EdgeLock enclave with container version 2: the credential is an AHAB certificate, the response a signed message."""
+    import hashlib
+
+    from spsdk.dat.dar_packet import DebugAuthenticateResponse
+    from spsdk.dat.debug_credential import DebugCredentialCertificate, DebugCredentialEdgeLockEnclaveV2
+
+    r = rng(PROP, "scenario", sc["id"])
+    case, fam = sc["case"], sc["fam"]
+    ver, used = list(case["ver"]), case["used"]
+    ks = KEYSET[tuple(ver)]
+    host = Host(sc)
+    ev = [{"e": "Case", "cls": "ele2", "ver": ver, "nkeys": 4, "used": used, "wild": case["wild"], "sha256": fam["sha256"], "skip": []}]
+    wit = {"blobs": {}}
+    trace = {"id": sc["id"], "ev": ev, "sc": sc, "wit": wit}
+
+    def done():
+        ev.append({"e": "Done"})
+        return trace
+
+    u1 = bytes(r.randrange(1, 256) for _ in range(16))
+    ch1 = bytes(r.randrange(256) for _ in range(32))
+    beacon = r.randrange(1, 1 << 16)
+    if not case["wild"] and sc["id"] % 7 == 3:  # a device whose UUID is a small number (eight leading zero bytes)
+        u1 = bytes(8) + u1[8:]
+    uuid = bytes(16) if case["wild"] else u1
+    socu = r.getrandbits(32)
+    pubs = [D.load_pub(kp(f"srk{i}", ks, "pub")) for i in range(4)]
+    dck_ref = D.load_pub(kp("dck", ks, "pub"))
+    cfg = {"family": fam["family"], "revision": fam["revision"], "cc_socu": hex(socu), "uuid": "0x" + uuid.hex(), "fuse_version": 0,
+           "public_key_0": kp("dck", ks, "pub"), "signing_key_0": kp(f"srk{used}", ks, "pem")}
+    try:
+        dc_obj = DebugCredentialEdgeLockEnclaveV2.create_from_yaml_config(config=dict(cfg))
+        dc_obj.sign()
+        dcb = dc_obj.export()
+    except Exception as e:  # noqa: BLE001 - nothing was created
+        ev.append({"e": "Create", "ok": False, "exc": exc_name(e), "msg": str(e)[:200], "spsdk": is_spsdk_error(e)})
+        return done()
+    wit["blobs"]["dc"] = dcb.hex()
+    ev.append({"e": "Create", "ok": True, "len": len(dcb), "via": "ele2-class",
+               "in": {"socc": limbs(fam["socc"]), "uuid": list(uuid), "socu": limbs(socu), "vu": [0, 0], "beacon": [0, 0]}})
+    c = D.walk_cert2(dcb)
+    if c.get("err"):
+        ev.append({"e": "DcLayout", "fields": table(c.get("fields", [])), "end": -1, "len": len(dcb), "err": c["err"]})
+        return done()
+    ev.append({"e": "DcLayout", "fields": table(c["fields"]), "end": c["end"], "len": len(dcb)})
+    ev.append({"e": "DcFields", "out": {"socc": limbs(c["socc"]), "uuid": list(c["uuid"]), "socu": limbs(c["cc_socu"]), "beacon": limbs(c["cc_beacon"])},
+               "flagsOk": c["perm_ok"] and c["reserved_ok"] and c["size"] == D.ver_size(ver) and c["rec_flags"] == 0 and c["srk_id"] == 0 and c["fuse_version"] == 0})
+    scheme = "ecdsa-" + D.ECC_HASH[c["size"]]
+    signer = next((i for i, p_ in enumerate(pubs) if D.verify(p_, c["sig"], c["signed"], scheme)), -1)
+    ev.append({"e": "DcKeys", "rotIdx": signer, "dckOk": c["dck_pub"] == dck_ref, "tableOk": c["srk_hash_ok"]})
+    p = None
+    try:
+        p = DebugCredentialCertificate.parse(dcb)
+        out = {"socc": limbs(p.socc), "uuid": list(p.uuid), "socu": limbs(p.socu), "beacon": limbs(p.beacon)}
+        try:
+            reexport = p.export() == dcb
+        except Exception:  # noqa: BLE001
+            reexport = False
+        ev.append({"e": "SpsdkParse", "ok": True, "out": out, "eq": bool(p == dc_obj), "reexport": reexport, "cls": type(p).__name__})
+    except Exception as e:  # noqa: BLE001
+        ev.append({"e": "SpsdkParse", "ok": False, "exc": exc_name(e), "msg": str(e)[:200]})
+    ev.append({"e": "CheckDcSignature", "from": 0, "to": len(c["signed"]), "sigAt": c["sig_at"], "sigLen": len(c["sig"]), "key": f"srk[{used}]", "scheme": scheme,
+               "ok": D.verify(pubs[used], c["sig"], c["signed"], scheme)})
+
+    # ---- challenge (the enclave families send the version minor first), response
+    ref_table = D.ref_srk_table2(pubs)
+    fuses = hashlib.sha512(ref_table).digest()
+    raw = D.build_dac([0, 2] if fam["swapped"] else [2, 0], fam["socc"], u1, fuses[:32], ch1, revocation=r.getrandbits(4), pinned=r.getrandbits(32),
+                      default=r.getrandbits(32), vu=r.getrandbits(32))
+    try:
+        dac = host.parse_dac(raw)
+        try:
+            dac.validate_against_dc(fam["family"], dc_obj)
+            val = "ok"
+        except Exception as e:  # noqa: BLE001
+            val = "raise:" + exc_name(e)
+        ev.append({"e": "Dac", "ok": True, "len": len(raw), "hl": 32, "chalOk": dac.challenge == ch1, "uuidOk": dac.uuid == u1,
+                   "verOk": [dac.version.major, dac.version.minor] == [2, 0], "validate": val})
+    except Exception as e:  # noqa: BLE001
+        ev.append({"e": "Dac", "ok": False, "len": len(raw), "hl": 32, "exc": exc_name(e), "msg": str(e)[:200]})
+        host.ver = (2, 0)
+        dac = host.make_dac(raw, 32)
+    path = os.path.join(scratch(), f"c15-{os.getpid()}-{sc['id']}.dc")
+    with open(path, "wb") as f:
+        f.write(dcb)
+    rcfg = {"family": fam["family"], "revision": fam["revision"], "certificate": path, "beacon": beacon, "srk_set": "oem", "used_srk_id": used, "srk_revoke_mask": 0,
+            "srk_table": {"flag_ca": False, "srk_array": [kp(f"srk{i}", ks, "pub") for i in range(4)]}, "signing_key": kp("dck", ks, "pem"),
+            "output": os.path.join(scratch(), f"c15-{os.getpid()}-{sc['id']}.dar")}
+    try:
+        dar = DebugAuthenticateResponse.load_from_config(rcfg, dac).export()
+    except Exception as e:  # noqa: BLE001 - nothing was built
+        ev.append({"e": "Respond", "ok": False, "exc": exc_name(e), "msg": str(e)[:200], "spsdk": is_spsdk_error(e)})
+        return done()
+    wit["blobs"].update(dar=dar.hex(), chal=ch1.hex(), uuid=u1.hex())
+    ev.append({"e": "Respond", "ok": True, "len": len(dar), "via": "config"})
+    m = D.walk_msg2(dar)
+    if m.get("err"):
+        ev.append({"e": "DarLayout", "fields": table(m.get("fields", [])), "end": -1, "len": len(dar), "err": m["err"]})
+        return done()
+    ev.append({"e": "DarLayout", "fields": table(m["fields"]), "end": m["end"], "len": len(dar)})
+    ev.append({"e": "DarFields", "dcEq": m["cert"] == dcb, "beacon": limbs(m["beacon"]), "beaconIn": limbs(beacon), "chalOk": m["challenge"] == ch1,
+               "msgUuid": m["msg_uuid"].hex(), "usedOk": m["used"] == used})
+    try:
+        tools = host.tools_hash([f"srk{i}" for i in range(4)]).hex() if sc["tools"] else "n/a"
+    except Exception as e:  # noqa: BLE001
+        tools = "raise:" + exc_name(e)
+    ev.append({"e": "CheckRotHash", "fromBytes": hashlib.sha512(m["table_raw"]).hexdigest() if m["srk_data_ok"] and m["rot_pub"] == pubs[used] else "srk-data-mismatch",
+               "ref": fuses.hex(), "dc": "n/a", "tools": tools})
+    ok = D.verify(dck_ref, m["sig"], m["signed"], scheme)
+    ev.append({"e": "CheckResponseSignature", "from": 0, "to": len(m["signed"]), "sigAt": m["sig_at"] + 8, "sigLen": len(m["sig"]), "key": "dck", "scheme": scheme, "ok": ok})
+    dev = D.Device2(u1, fam["socc"], fuses)
+    verdict, detail = dev.verdict(dar, ch1)
+    ev.append({"e": "Deliver", "verdict": verdict, "detail": detail[:100]})
+    if not ok:
+        return done()
+    for part, tbl, base in (("dar", [f for f in m["fields"] if f[0] not in ("dc", "pad")], 0), ("dc", c["fields"], m["cert_at"])):
+        for name, off, ln in tbl:
+            pos = base + off + r.randrange(ln)
+            t = bytearray(dar)
+            t[pos] ^= 1 << r.randrange(8)
+            ev.append({"e": "Tamper", "part": part, "field": name, "at": pos, "verdict": dev.verdict(bytes(t), ch1)[0]})
+    return done()
+
+
 def _run_scenario(sc):
+    if sc["case"]["cls"] == "ele2":
+        return _run_scenario_ele2(sc)
     r = rng(PROP, "scenario", sc["id"])
     case, fam = sc["case"], sc["fam"]
     ver, n, used, ele = list(case["ver"]), case["nkeys"], case["used"], case["cls"] == "ele1"
     ks = KEYSET[tuple(ver)]
     host = Host(sc)
     binds = ver[0] == 2
-    noparse = bool(sc.get("noparse"))  # continuation of a trace whose SpsdkParse step was rejected: the remaining clauses are still walked
-    ev = [{"e": "Case", "cls": case["cls"], "ver": ver, "nkeys": n, "used": used, "wild": case["wild"], "sha256": fam["sha256"], "noparse": noparse}]
+    ev = [{"e": "Case", "cls": case["cls"], "ver": ver, "nkeys": n, "used": used, "wild": case["wild"], "sha256": fam["sha256"], "skip": []}]
     wit = {"blobs": {}}
     trace = {"id": sc["id"], "ev": ev, "sc": sc, "wit": wit}
 
@@ -243,21 +381,19 @@ def _run_scenario(sc):
     rot_idx = next((i for i, p in enumerate(pubs) if dc["rot_pub"] == p), -1)
     ev.append({"e": "DcKeys", "rotIdx": rot_idx, "dckOk": dc["dck_pub"] == D.load_pub(kp("dck", ks, "pub")), "tableOk": table_ok(dc, pubs, ele)})
 
-    # ---- SPSDK's own parser
+    # ---- SPSDK's own parser (a failure is decided by the spec - there is no such step - and the walk goes on without the parsed object)
     p = None
-    if not noparse:
+    try:
+        p = host.parse_dc(dcA)
+        out = spsdk_fields(p)
         try:
-            p = host.parse_dc(dcA)
-            out = spsdk_fields(p)
-            try:
-                reexport = p.export() == dcA
-            except Exception:  # noqa: BLE001
-                reexport = False
-            ev.append({"e": "SpsdkParse", "ok": True, "out": out, "eq": bool(p == dcA_obj), "reexport": reexport, "cls": type(p).__name__})
-        except Exception as e:  # noqa: BLE001 - "parses back" failed: decided by the spec (no such step)
-            ev.append({"e": "SpsdkParse", "ok": False, "exc": exc_name(e), "msg": str(e)[:200]})
-            trace["parse_failed"] = True
-            return done()
+            reexport = p.export() == dcA
+        except Exception:  # noqa: BLE001
+            reexport = False
+        ev.append({"e": "SpsdkParse", "ok": True, "out": out, "eq": bool(p == dcA_obj), "reexport": reexport, "cls": type(p).__name__})
+    except Exception as e:  # noqa: BLE001
+        p = None
+        ev.append({"e": "SpsdkParse", "ok": False, "exc": exc_name(e), "msg": str(e)[:200]})
 
     # ---- CheckDcSignature / CheckRotHash (device twin on the real bytes)
     fuses = D.rot_hash_from_dc(dc, ele)
@@ -297,7 +433,6 @@ def _run_scenario(sc):
     raw = dac_bytes("d1", "ch1")
     try:
         dac = host.parse_dac(raw)
-        dacs[("d1", "ch1")] = dac
         try:
             dac.validate_against_dc(fam["family"], dcA_obj)
             val = "ok"
@@ -305,9 +440,14 @@ def _run_scenario(sc):
             val = "raise:" + exc_name(e)
         ev.append({"e": "Dac", "ok": True, "len": len(raw), "hl": hl, "chalOk": dac.challenge == chs["ch1"], "uuidOk": dac.uuid == uu["d1"],
                    "verOk": [dac.version.major, dac.version.minor] == ver, "validate": val})
-    except Exception as e:  # noqa: BLE001
-        ev.append({"e": "Dac", "ok": False, "len": len(raw), "hl": hl, "exc": exc_name(e), "msg": str(e)[:200]})
-        return done()
+        if dac.challenge != chs["ch1"] or dac.uuid != uu["d1"]:
+            raise ValueError("challenge misread")
+        dacs[("d1", "ch1")] = dac
+    except Exception as e:  # noqa: BLE001 - decided by the spec; the walk goes on with a challenge object made through the constructor
+        if ev[-1]["e"] != "Dac":
+            ev.append({"e": "Dac", "ok": False, "len": len(raw), "hl": hl, "exc": exc_name(e), "msg": str(e)[:200]})
+        host.parse_dac = lambda data: host.make_dac(data, hl)
+        dac = dac_obj("d1", "ch1")
 
     # ---- Respond (SPSDK) and walk the response
     try:
@@ -446,7 +586,8 @@ def plan(cases, attempts, fams, tier, r):
     """Scenarios: every abstract case on several families; every family at least once; attempts dealt round-robin."""
     per_case = 2 if tier == "quick" else 10
     n_att = 14 if tier == "quick" else 60
-    by_cls = {"classic": [f for f in fams if not f["ele"]], "ele1": [f for f in fams if f["ele"] and f["cnt"] == 1]}
+    by_cls = {"classic": [f for f in fams if not f["ele"]], "ele1": [f for f in fams if f["ele"] and f["cnt"] == 1],
+              "ele2": [f for f in fams if f["ele"] and f["cnt"] == 2]}
     scs = []
     used_fams = set()
 
@@ -460,7 +601,7 @@ def plan(cases, attempts, fams, tier, r):
         chosen = []
         if indom:
             chosen.append(r.choice(indom))
-        while len(chosen) < per_case:
+        while len(chosen) < min(per_case, max(2, len(pool))):
             f = r.choice(pool if (tier == "thorough" or not indom or r.random() < 0.3) else indom)
             if f not in chosen or len(pool) < per_case:
                 chosen.append(f)
@@ -469,7 +610,7 @@ def plan(cases, attempts, fams, tier, r):
     for f in fams:
         if (f["family"], f["revision"]) in used_fams or (tier == "quick" and not f["latest"]):
             continue
-        cls = "ele1" if f["ele"] and f["cnt"] == 1 else "classic" if not f["ele"] else None
+        cls = "ele1" if f["ele"] and f["cnt"] == 1 else "ele2" if f["ele"] and f["cnt"] == 2 else "classic" if not f["ele"] else None
         if cls is None:
             continue
         pool = [c for c in cases if c["cls"] == cls and tools_apply(f, cls, c["ver"])] or [c for c in cases if c["cls"] == cls]
@@ -515,18 +656,21 @@ def finding_key(t, matched):
     elif e in ("DcFields", "SpsdkParse"):
         exp = next((x["in"] for x in t["ev"] if x.get("e") == "Create"), {})
         out = ev.get("out", {})
-        diff = [k for k in ("socc", "uuid", "socu", "vu", "beacon") if out.get(k) != exp.get(k)]
-        if out.get("ver") != sc["case"]["ver"]:
-            diff.append("ver")
-        if out.get("nkeys") != sc["case"]["nkeys"]:
-            diff.append("nkeys")
-        if out.get("used") not in (-1, sc["case"]["used"]):
-            diff.append("used")
+        diff = [k for k in ("socc", "uuid", "socu", "vu", "beacon") if k in out and out.get(k) != exp.get(k)]
+        if sc["case"]["cls"] != "ele2":
+            if out.get("ver") != sc["case"]["ver"]:
+                diff.append("ver")
+            if out.get("nkeys") != sc["case"]["nkeys"]:
+                diff.append("nkeys")
+            if out.get("used") not in (-1, sc["case"]["used"]):
+                diff.append("used")
         if e == "SpsdkParse" and not diff:
             diff = [k for k in ("eq", "reexport") if not ev.get(k)]
         if e == "DcFields" and not ev.get("flagsOk", True):
             diff.append("flags")
         detail = "field=" + "+".join(diff or ["?"])
+        if "uuid" in diff and any(exp.get("uuid", [])) and not any(exp["uuid"][:8]):
+            detail += "/uuid<2^64"
     elif e == "DcKeys":
         detail = "+".join(k for k, bad in (("rot-key", ev["rotIdx"] != sc["case"]["used"]), ("dck", not ev["dckOk"]), ("table", not ev["tableOk"])) if bad)
     elif e == "CheckDcSignature":
@@ -538,7 +682,10 @@ def finding_key(t, matched):
     elif e == "Dac":
         detail = "+".join(k for k in ("chalOk", "uuidOk", "verOk") if not ev.get(k)) or f"validate={ev.get('validate')}"
     elif e == "DarFields":
-        detail = "+".join(k for k, bad in (("dc", not ev["dcEq"]), ("beacon", ev["beacon"] != ev["beaconIn"]), (f"uuid={ev['uuidIs']}", not ev["uuidIsDev"] and ev["uuidIs"] != "none")) if bad)
+        detail = "+".join(k for k, bad in (("dc", not ev["dcEq"]), ("beacon", ev["beacon"] != ev["beaconIn"]), ("challenge", not ev.get("chalOk", True)),
+                                           (f"uuid={ev.get('uuidIs')}", not ev.get("uuidIsDev", True) and ev.get("uuidIs") != "none")) if bad)
+    elif e == "CheckResponseSignature" and "cover" not in ev:
+        detail = "not-verified" if not ev["ok"] else f"range={ev['from']}..{ev['to']}"
     elif e == "CheckResponseSignature":
         detail = "not-verified" + ("/verifies-for=" + "+".join(ev["alts"]) if ev.get("alts") else "")
     elif e == "Attempt":
@@ -548,6 +695,8 @@ def finding_key(t, matched):
         detail = f"subst={'+'.join(sub) or 'none'}/{ev['verdict']}"
     elif e == "Tamper":
         detail = f"{ev['part']}.{ev['field']}/{ev['verdict']}"
+    elif e == "Deliver":
+        detail = ev["verdict"]
     return f"C15/{ver}/{sc['fam']['fclass']}/{e}" + (f"/{detail}" if detail else "")
 
 
@@ -568,6 +717,24 @@ def validate(v, traces):
         v.violation(key, f"{t['sc']['fam']['family']}/{t['sc']['fam']['revision']} case {json.dumps(t['sc']['case'])}: event #{matched + 1} ({evname}) is not a step of the R-spec: "
                     f"{json.dumps({k: x for k, x in ev.items() if k not in ('fields',)})[:300]}", dict(slim(t), failed_event=matched + 1))
     return rej
+
+
+SKIPPABLE = ("DcFields", "DcKeys", "SpsdkParse", "CheckDcSignature", "CheckRotHash", "Dac", "DarFields", "CheckResponseSignature", "Deliver")
+
+
+def continuation(t, matched, rnd):
+    """The trace without its rejected event: a check-only step is listed in Case.skip, an attempt / tamper event is just dropped."""
+    if matched >= len(t["ev"]):
+        return None
+    name = t["ev"][matched]["e"]
+    if name not in SKIPPABLE and name not in ("Attempt", "Tamper"):
+        return None
+    ev = json.loads(json.dumps(t["ev"][:matched] + t["ev"][matched + 1:]))
+    if name in SKIPPABLE:
+        ev[0]["skip"] = ev[0]["skip"] + [name]
+        if name == "CheckResponseSignature":  # without an accepted honest response the attempts say nothing
+            ev = [e for e in ev if e["e"] not in ("Attempt", "Tamper")]
+    return dict(t, id=t["id"] % 100000 + 100000 * (rnd + 1), ev=ev)
 
 
 def canary(good):
@@ -626,7 +793,7 @@ def run(tier):
     items = gen.json_prints()
     cases = [x for x in items if x["kind"] == "case"]
     attempts = [{k: x for k, x in a.items() if k != "kind"} for a in items if a["kind"] == "attempt"]
-    if len(cases) != 140 or len(attempts) != 2304 or gen.distinct != len(items):
+    if len(cases) != 164 or len(attempts) != 2304 or gen.distinct != len(items):
         raise Machinery(f"GEN emitted {len(cases)} cases / {len(attempts)} attempts / {gen.distinct} states")
     say(f"[C15] GEN done {v.timer.s()}s: {len(cases)} cases, {len(attempts)} delivery attempts")
 
@@ -656,9 +823,6 @@ def run(tier):
     say(f"[C15] {len(scs)} scenarios over {len({(s['fam']['family'], s['fam']['revision']) for s in scs})} family revisions")
     order = r.sample(scs, k=len(scs))  # spread the expensive (RSA-4096) scenarios over the pool
     traces = sorted(pmap(run_scenario, order, chunksize=2), key=lambda t: t["id"])
-    # a trace that stops at a failed SpsdkParse step is continued without that step (the step itself stays rejected)
-    cont = [dict(t["sc"], id=t["id"] + 100000, noparse=True, dar_via="create", dc_for_dar="created") for t in traces if t.get("parse_failed")]
-    traces += pmap(run_scenario, cont, chunksize=1)
     herr = [t for t in traces if t.get("harness_error")]
     if herr:
         raise Machinery(f"harness error in scenario {herr[0]['sc']['id']} ({herr[0]['sc']['fam']['family']}, {herr[0]['sc']['case']}): {herr[0]['harness_error']}")
@@ -712,20 +876,29 @@ def run(tier):
     rsa = next((t for t in traces if t["sc"]["case"]["ver"][0] == 1 and t["sc"]["case"]["wild"] and t["ev"][-2]["e"] == "Tamper"), None)
     if rsa:
         v.sample({"rsa_wildcard_other_device": [e for e in rsa["ev"] if e["e"] == "Attempt" and e["a"]["d"] == "d2" and e["verdict"] == "Accept"][:2]})
-    chunk = 400
-    for k in range(0, len(traces), chunk):
-        validate(v, traces[k:k + chunk])
+    pending, rounds = traces, 0
+    while pending and rounds < 8:
+        rej = {}
+        for k in range(0, len(pending), 400):
+            rej.update(validate(v, pending[k:k + 400]))
+        by_id = {t["id"]: t for t in pending}
+        # a trace rejected at a check-only step goes round again without that step (the step stays reported)
+        pending = [x for x in (continuation(by_id[tid], m[0], rounds) for tid, m in rej.items()) if x]
+        rounds += 1
+    v.extra["tv_rounds"] = rounds
     say(f"[C15] TV done {v.timer.s()}s")
 
     v.cov["rule"] = (
-        f"cases = the 140 abstract credential cases TLC enumerates (classic RSA 1.0/1.1, ECC 2.0/2.1/2.2 with 1..4 RoT keys and each used index; "
-        f"EdgeLock-enclave credentials with 4 keys; device-specific and wildcard) x {2 if tier == 'quick' else 10} DAT families each, every family of the database "
+        f"cases = the 164 abstract credential cases TLC enumerates (classic RSA 1.0/1.1, ECC 2.0/2.1/2.2 with 1..4 RoT keys and each used index; "
+        f"EdgeLock-enclave credentials of container version 1 (5 key types) and 2 (3 ECC key types) with 4 keys; device-specific and wildcard) x "
+        f"{2 if tier == 'quick' else 10} DAT families each (fewer where a class has fewer families), every family of the database "
         f"at least once ({v.extra['families']} families, {v.extra['family_revisions']} revisions); per scenario the honest exchange, the core substitutions and a "
         "round-robin share of the 2304 delivery attempts TLC enumerates, plus one bit flip per field of the response; distinct = (family class, case) and "
         "(class, wildcard, attempt)"
     )
     v.cov["checker_cmd"] = "TLC DatGen (cases, attempts, lemmas) ; TLC DatMC (protocol invariants) ; TLC DatTrace (decides every trace)"
-    v.cov["trusted_base"] = "cryptography (RSA PKCS#1 v1.5 / PSS, ECDSA verify), hashlib; layouts anchored on 5 golden credentials + 3 challenges of tests/dat/data"
+    v.cov["trusted_base"] = ["TLC", "cryptography: RSA PKCS#1 v1.5 / PSS verify, ECDSA verify, PEM key loading - called directly", "hashlib (SHA-256/384/512)",
+                             "harness/c15_dev.py walkers; layouts anchored on 5 golden credentials + 3 challenges of tests/dat/data (container v2: documentation tables only)"]
     v.assumptions += [
         "EdgeLock-enclave credentials of container version 2 (AHAB certificate, mimx943 / mimx9596 b0) are not walked by the twin in this build step",
         "the root-of-trust-hash clause is asserted where the image side defines a value: RSA on cert-block-v1 families, P-256/P-384 on cert-block-v2.1 "
@@ -739,16 +912,33 @@ def run(tier):
 
 
 def replay(path):
+    import fnmatch
+
+    from lib.verdict import load_known
+
     import_spsdk()
     w = json.load(open(path))["witness"]
     t = run_scenario(w["sc"])
     if t.get("harness_error"):
         raise Machinery(t["harness_error"])
-    rej, _ = tlc.tv("C15", "DatTrace", [{"id": t["id"], "ev": t["ev"]}])
-    if rej:
+    known = [k["key"] for k in load_known() if k.get("property") == PROP and k.get("status") == "known"]
+    bad, rounds = 0, 0
+    while t and rounds < 8:
+        rej, _ = tlc.tv("C15", "DatTrace", [{"id": t["id"], "ev": t["ev"]}])
+        if not rej:
+            break
         matched = list(rej.values())[0][0]
-        say(f"VIOLATION property=C15 replay={path}")
-        say(f"  key={finding_key(t, matched)}: rejected at event {matched + 1}: {json.dumps(t['ev'][min(matched, len(t['ev']) - 1)])[:400]}")
+        key = finding_key(t, matched)
+        ev = json.dumps(t["ev"][min(matched, len(t["ev"]) - 1)])[:400]
+        if any(fnmatch.fnmatchcase(key, k) for k in known):
+            say(f"KNOWN-FINDING: property=C15 {key}: {ev}")
+        else:
+            bad += 1
+            say(f"VIOLATION property=C15 replay={path}")
+            say(f"  key={key}: rejected at event {matched + 1}: {ev}")
+        t = continuation(t, matched, rounds)
+        rounds += 1
+    if bad:
         return 1
-    say("replay: trace accepted by the R-spec")
+    say("replay: trace accepted by the R-spec" + (" (apart from known findings)" if rounds else ""))
     return 0
